@@ -258,6 +258,33 @@ def _check_fit(bad, M, lf, b):
             bad.guard("adjusted-correction", ba)
 
 
+def _check_eps(bad, M, lf, b):
+    """the optional eps argument at a non-default value (1/4, exact): the same Terms with eps = 1/4 substituted"""
+    from fractions import Fraction
+    from harness.term import eval_term_eps
+    yv, hv = _vec(_ints(b["y"])), _vec(b["h"])
+    y, h = yv["float64"], hv["float64"]
+    for fn in ("rmspe", "rpd", "smape"):
+        if fn not in b["terms"]:
+            continue
+        exp = eval_term_eps(b["terms"][fn], Fraction(1, 4))
+
+        def f(fn=fn, exp=exp):
+            got = float(getattr(M, fn)(y.copy(), h.copy(), 0.25))
+            assert _close(got, exp), {"fn": "metrics.%s(eps=0.25)" % fn, "got": got, "expected": exp}
+        bad.guard(_clause("equals-definition", fn), f)
+        if b["kind"] == "line":
+            xv = _vec(_ints(b["x"]))["float64"]
+            coef = (b["b"][0] / b["b"][1], b["m"][0] / b["m"][1])
+
+            def g(fn=fn, exp=exp):
+                got = float(getattr(lf, fn)(xv.copy(), y.copy(), coef, 0.25))
+                assert _close(got, exp), {"fn": "linear_fit.%s(eps=0.25)" % fn, "got": got, "expected": exp}
+                got = float(getattr(lf, fn + "_points")(np.column_stack([xv, y]), coef, 0.25))
+                assert _close(got, exp), {"fn": "linear_fit.%s_points(eps=0.25)" % fn, "got": got, "expected": exp}
+            bad.guard(_clause("wrapper-equals-metric", fn), g)
+
+
 def _check(b):
     M, lf = _libs()
     bad = _Bad()
@@ -265,6 +292,7 @@ def _check(b):
     if k in ("pair", "line"):
         expected = {fn: eval_term(t) for fn, t in b["terms"].items()}
         _check_metrics(bad, M, b, expected)
+        _check_eps(bad, M, lf, b)
         if k == "line":
             _check_line(bad, M, lf, b, expected)
     elif k == "fit":
